@@ -153,24 +153,12 @@ theorem token_decode (b : Buf) (cur : Nat) (t : List Nat) (ht : Token t) (h : At
   rw [hlen]
   exact decodeVarint_of_dvLoop b cur v' _ hv'
 
-/-- the byte in front of a token: `decode_varint` from there stops at the token's last byte at the
-latest (nine bytes in all) -/
-theorem decode_before_token (b : Buf) (s : Nat) (t : List Nat) (ht : Token t) (h : AtPos b s t) (hs : 1 ≤ s) :
-    ∃ r, decodeVarint b (s - 1) = .ok r := by
-  obtain ⟨cb, last, rfl, h1, h2, h3⟩ := ht
-  have hlen : (cb ++ [last]).length = cb.length + 1 := by simp
-  obtain ⟨r, hr⟩ := dvLoop_ok b (s - 1) 9 0 0 (cb.length + 1) (by omega)
-    (by have := atPos_le b s _ h; rw [hlen] at this; omega)
-    (by
-      right
-      obtain ⟨_, e⟩ := atPos_rd b s _ h cb.length (by rw [hlen]; omega)
-      rw [show s - 1 + 0 + (cb.length + 1) = s + cb.length by omega, e,
-        List.getElem_append_right (Nat.le_refl _)]
-      simp only [Nat.sub_self, List.getElem_cons_zero]
-      exact hibit_clear _ h3)
-  obtain ⟨u, n⟩ := r
-  obtain ⟨st, hst⟩ := decodeVarint_of_dvLoop b (s - 1) u n hr
-  exact ⟨_, hst⟩
+/-- a byte without the high bit is a whole varint: `decode_varint` reads exactly it (what is left of
+`decode_varint(data, at)` once the guard in front of it has passed) -/
+theorem decodeVarint_single (b : Buf) (at_ : Nat) (hlt : at_ < b.size) (hz : b.rd at_ &&& 0x80 = 0) :
+    ∃ v, decodeVarint b at_ = .ok (v, 1) := by
+  obtain ⟨v', hv'⟩ := dvLoop_stop b at_ 9 0 0 0 (by omega) (by omega) (fun i hi => by omega) (Or.inr hz)
+  exact decodeVarint_of_dvLoop b at_ v' _ hv'
 
 /-! ### token sequences -/
 
@@ -585,35 +573,37 @@ theorem fromFreeblockSize_props (fc : List Int) (fb : Int) (sdSize sdcs : Nat) :
       exact h st (List.mem_cons_self ..)
     · exact goodOpt_none
 
+/-- the guard in front of `decode_varint`: inside the data it passes on a byte without the high bit and
+rejects the candidate otherwise -/
+theorem precedingByteGuard_cases (data : Buf) (at_ : Nat) (hlt : at_ < data.size) :
+    (precedingByteGuard data at_ = .ok () ∧ data.rd at_ &&& 0x80 = 0) ∨
+      precedingByteGuard data at_ = .error .cellCarving := by
+  unfold precedingByteGuard
+  rw [if_pos hlt]
+  by_cases hz : data.rd at_ &&& 0x80 = 0
+  · left; exact ⟨by simp only [hz, ne_eq, not_true_eq_false, if_false], hz⟩
+  · right; simp only [ne_eq, hz, not_false_eq_true, if_true]
+
 theorem fromPrecedingByte_props (P : CErr → Prop) (hP : ∀ e, Absorbed e → P e) (fc : List Int) (data : Buf)
-    (at_ : Nat) (hd : (∃ r, decodeVarint data at_ = .ok r) ∨ P (.py .typeError)) :
-    Res P GoodOpt (fromPrecedingByte fc data at_) := by
+    (at_ : Nat) (hlt : at_ < data.size) : Res P GoodOpt (fromPrecedingByte fc data at_) := by
   unfold fromPrecedingByte
   simp only [bind, Except.bind, pure, Except.pure]
-  cases hdv : decodeVarint data at_ with
-  | error e' =>
-    have := decode_error_kind data at_ e' hdv
-    subst this
-    rcases hd with ⟨r, hr⟩ | hd
-    · rw [hdv] at hr; cases hr
-    · exact hd
-  | ok r =>
-    obtain ⟨st, n⟩ := r
-    simp only [liftPy]
-    by_cases hn : n = 1
-    · simp only [hn, ne_eq, not_true_eq_false, if_false]
-      split
-      · rcases contentSize_cases st with hcs | hcs | ⟨sz, hcs, hg, _⟩
-        · rw [hcs]; exact hP _ absorbed_ve
-        · rw [hcs]; exact hP _ absorbed_om
-        · rw [hcs]
-          intro c hc
-          simp only [Option.some.injEq] at hc
-          subst hc
-          exact hg
-      · exact goodOpt_none
-    · simp only [ne_eq, hn, not_false_eq_true, if_true]
-      exact hP _ absorbed_cc
+  rcases precedingByteGuard_cases data at_ hlt with ⟨hg, hz⟩ | hg
+  · obtain ⟨st, hdv⟩ := decodeVarint_single data at_ hlt hz
+    rw [hg, hdv]
+    simp only [liftPy, ne_eq, not_true_eq_false, if_false]
+    split
+    · rcases contentSize_cases st with hcs | hcs | ⟨sz, hcs, hg, _⟩
+      · rw [hcs]; exact hP _ absorbed_ve
+      · rw [hcs]; exact hP _ absorbed_om
+      · rw [hcs]
+        intro c hc
+        simp only [Option.some.injEq] at hc
+        subst hc
+        exact hg
+    · exact goodOpt_none
+  · rw [hg]
+    exact hP _ absorbed_cc
 
 theorem dvrLoop_err (b : Buf) (offset max : Nat) : ∀ (rem v : Nat) (e : PyErr),
     dvrLoop b offset max rem v = .error e → e = .parseError := by
@@ -640,15 +630,12 @@ theorem decodeVarintRev_err (b : Buf) (offset max : Nat) (e : PyErr) (h0 : offse
 /-- the freeblock branches of the first column reconstruction -/
 theorem reconstructFirst_fb (P : CErr → Prop) (hP : ∀ e, Absorbed e → P e) (i : RecIn) (fc : List Int) (fb : Nat)
     (hloc : i.loc = .freeblock) (hfc : i.firstCol = some fc) (hfb : i.fbSize = some fb)
-    (hd : (1 ≤ i.s → ∃ r, decodeVarint i.data (i.s - 1) = .ok r) ∨ P (.py .typeError)) (a b : Nat) :
+    (hs : i.s ≤ i.data.size) (a b : Nat) :
     Res P GoodOpt (reconstructFirst i a b) := by
   have hpb : ∀ at_, at_ = i.s - 1 → 1 ≤ i.s → Res P GoodOpt (fromPrecedingByte fc i.data at_) := by
     intro at_ hat h1
     subst hat
-    apply fromPrecedingByte_props P hP
-    rcases hd with hd | hd
-    · exact Or.inl (hd h1)
-    · exact Or.inr hd
+    exact fromPrecedingByte_props P hP fc i.data _ (by omega)
   unfold reconstructFirst
   by_cases h0 : i.s = 0
   · simp only [h0, if_true, hloc, hfc, hfb]
@@ -825,29 +812,23 @@ theorem candOk_unallocated (fo pn ix : Nat) (i : RecIn) (k : Nat) (hwf : i.data.
     · exact Or.inl hk
     · exact Or.inr ⟨hk1, hk2, fun a b => reconstructFirst_unalloc i hloc a b⟩
 
-/-- the freeblock location, any column count: `TypeError` may escape as well -/
+/-- the freeblock location, any column count (also an empty partial match: the guard in front of
+`decode_varint` reads the byte before it, which is inside the data) -/
 theorem carvedRecord_freeblock (P : CErr → Prop) (hP : ∀ e, Absorbed e → P e) (i : RecIn) (k : Nat)
     (fc : List Int) (fb : Nat) (hwf : i.data.WF) (hsize : i.data.size < 2 ^ 53)
     (htok : TokAt i.data k i.s i.e) (hloc : i.loc = .freeblock) (hfc : i.firstCol = some fc)
-    (hfb : i.fbSize = some fb) (hk : k + 1 ≤ i.nCols)
-    (ht : 1 ≤ k ∨ P (.py .typeError)) : Res P (fun _ => True) (carvedRecord i) := by
+    (hfb : i.fbSize = some fb) (hk : k + 1 ≤ i.nCols) : Res P (fun _ => True) (carvedRecord i) := by
   apply carvedRecord_res P hP i k hwf hsize htok (by omega) _ (Or.inl hk)
   intro a b
-  apply reconstructFirst_fb P hP i fc fb hloc hfc hfb
-  rcases ht with ht | ht
-  · left
-    intro hs
-    obtain ⟨k', rfl⟩ : ∃ k', k = k' + 1 := ⟨k - 1, by omega⟩
-    obtain ⟨t, htk, hat, _⟩ := htok
-    exact decode_before_token i.data i.s t htk hat hs
-  · exact Or.inr ht
+  have hse := tokAt_le i.data k i.s i.e htok
+  exact reconstructFirst_fb P hP i fc fb hloc hfc hfb (by omega) a b
 
 theorem candOk_freeblock (fo pn ix : Nat) (i : RecIn) (k : Nat) (fc : List Int) (fb : Nat)
     (hwf : i.data.WF) (hsize : i.data.size < 2 ^ 53)
     (htok : TokAt i.data k i.s i.e) (hloc : i.loc = .freeblock) (hfc : i.firstCol = some fc)
-    (hfb : i.fbSize = some fb) (hk : k + 1 ≤ i.nCols) (hk1 : 1 ≤ k) : CandOk fo pn ix i :=
+    (hfb : i.fbSize = some fb) (hk : k + 1 ≤ i.nCols) : CandOk fo pn ix i :=
   candOk_of_res fo pn ix i
-    (carvedRecord_freeblock Absorbed (fun _ he => he) i k fc fb hwf hsize htok hloc hfc hfb hk (Or.inl hk1))
+    (carvedRecord_freeblock Absorbed (fun _ he => he) i k fc fb hwf hsize htok hloc hfc hfb hk)
 
 /-! ### (2) the loops -/
 
@@ -1094,7 +1075,7 @@ theorem completes_unallocated (sig : CarveSig) (h : SigOk sig) (ps pn po rs : Na
 /-- the exceptions that can leave `carve_freeblocks`: those of a candidate's constructor that are
 not absorbed -/
 theorem carveFreeblocks_err (P : CErr → Prop) (hP : ∀ e, Absorbed e → P e) (sig : CarveSig) (h : SigOk sig)
-    (ht : 2 ≤ sig.numberOfColumns ∨ P (.py .typeError)) (ps : Nat)
+    (ps : Nat)
     (fbs : List FbIn) (hwf : ∀ fb ∈ fbs, fb.content.WF) (hsize : ∀ fb ∈ fbs, fb.content.size < 2 ^ 53)
     (er : PyErr) (he : carveFreeblocks sig ps fbs = .error er) : P (.py er) ∧ er ≠ .valueError := by
   obtain ⟨fc, simplified, pf, pp, hc, hpf, hpp, hn⟩ := h
@@ -1114,55 +1095,77 @@ theorem carveFreeblocks_err (P : CErr → Prop) (hP : ∀ e, Absorbed e → P e)
       firstCol := some fc, fbSize := some fb.byteSize, pageSize := ps } (simplified.length - 1) fc fb.byteSize
     (hwf fb hfb) (hsize fb hfb) htok rfl rfl rfl
     (by show simplified.length - 1 + 1 ≤ sig.numberOfColumns; omega)
-    (by
-      rcases ht with ht | ht
-      · left; omega
-      · exact Or.inr ht)
   rw [h1] at hres
   exact hres
 
-/-- the same for freeblocks of tables with at least two columns -/
-theorem completes_freeblocks (sig : CarveSig) (h : SigOk sig) (hcols : 2 ≤ sig.numberOfColumns) (ps : Nat)
+/-- the same for freeblocks, whatever the number of columns (the guard in front of `decode_varint`
+closed the `ord(b'')` escape of single-column tables) -/
+theorem completes_freeblocks (sig : CarveSig) (h : SigOk sig) (ps : Nat)
     (fbs : List FbIn) (hwf : ∀ fb ∈ fbs, fb.content.WF) (hsize : ∀ fb ∈ fbs, fb.content.size < 2 ^ 53) :
     (∃ cells, carveFreeblocks sig ps fbs = .ok cells) ∨ carveFreeblocks sig ps fbs = .error .outsideModel := by
   apply ok_or_outside
   intro er he
-  obtain ⟨h1, h2⟩ := carveFreeblocks_err Absorbed (fun _ he => he) sig h (Or.inl hcols) ps fbs hwf hsize er he
+  obtain ⟨h1, h2⟩ := carveFreeblocks_err Absorbed (fun _ he => he) sig h ps fbs hwf hsize er he
   rcases h1 with h1 | h1 | h1
   · cases h1
   · simp only [CErr.py.injEq] at h1; exact absurd h1 h2
   · simp only [CErr.py.injEq] at h1; exact h1
 
-/-- single-column tables: the one exception class that still escapes is TypeError (`ord(b'')` in
-`decode_varint` running off the end of the freeblock, see `witness_ord_empty`) -/
-theorem freeblocks_single_column_escape (sig : CarveSig) (h : SigOk sig) (ps : Nat)
-    (fbs : List FbIn) (hwf : ∀ fb ∈ fbs, fb.content.WF) (hsize : ∀ fb ∈ fbs, fb.content.size < 2 ^ 53)
-    (e : PyErr) (he : carveFreeblocks sig ps fbs = .error e) : e = .outsideModel ∨ e = .typeError := by
-  obtain ⟨h1, h2⟩ := carveFreeblocks_err (fun e => Absorbed e ∨ e = .py .typeError) (fun _ he => Or.inl he) sig h
-    (Or.inr (Or.inr rfl)) ps fbs hwf hsize e he
-  rcases h1 with (h1 | h1 | h1) | h1
-  · cases h1
-  · simp only [CErr.py.injEq] at h1; exact absurd h1 h2
-  · simp only [CErr.py.injEq] at h1; exact Or.inl h1
-  · simp only [CErr.py.injEq] at h1; exact Or.inr h1
+/-- `x` completed with exactly `n` cells -/
+def okLen (x : Py (List CarvedCell)) (n : Nat) : Bool :=
+  match x with
+  | .ok cells => decide (cells.length = n)
+  | .error _ => false
 
-def isTypeError : Py (List CarvedCell) → Bool
-  | .error .typeError => true
-  | _ => false
+theorem of_okLen {x : Py (List CarvedCell)} {n : Nat} (h : okLen x n = true) :
+    ∃ cells, x = .ok cells ∧ cells.length = n := by
+  cases x with
+  | error e => cases h
+  | ok cells => exact ⟨cells, rfl, by simpa [okLen] using h⟩
 
-/-- the escape is real: a one-column table, a freeblock whose content ends in a byte with the high
-bit set; the empty partial match at the end of the content sends `decode_varint` off the end -/
-theorem single_column_typeError_witness :
-    SigOk sig12 ∧ carveFreeblocks sig12 1024 [⟨2, 0, 200, 204, 5, Buf.ofList [0x81], 1024⟩] = .error .typeError := by
+/-- the input that showed the two-column hypothesis was needed (one column, freeblock content `81`) now carves -/
+theorem fixed_single_column_witness :
+    SigOk sig12 ∧ ∃ cells, carveFreeblocks sig12 1024 [⟨2, 0, 200, 204, 5, Buf.ofList [0x81], 1024⟩] = .ok cells ∧
+      cells.length = 1 := by
   refine ⟨⟨[1, 2], [[1, 2]], .seq [.set [1, 2]], .seq [], rfl, rfl, rfl, rfl⟩, ?_⟩
-  have h : isTypeError (carveFreeblocks sig12 1024 [⟨2, 0, 200, 204, 5, Buf.ofList [0x81], 1024⟩]) = true := by
-    decide +kernel
-  revert h
-  generalize carveFreeblocks sig12 1024 _ = res
-  intro h
-  unfold isTypeError at h
-  split at h
-  · rfl
-  · cases h
+  apply of_okLen; decide +kernel
+
+/-- FULL STATEMENT, now a theorem: for every signature the carver can work with and every byte string
+(below 2^53 bytes) carving it as an unallocated region and as the content of a freeblock returns; the only
+non-result is the model's own `outsideModel` (a content size that no longer fits a float exactly) -/
+theorem completes (sig : CarveSig) (h : SigOk sig) (ps pn po rs : Nat) (data : Buf) (hwf : data.WF)
+    (hsize : data.size < 2 ^ 53) :
+    ((∃ cells, carveUnallocated sig ps pn po rs data = .ok cells) ∨
+       carveUnallocated sig ps pn po rs data = .error .outsideModel) ∧
+    (∀ (fbStart byteSize : Nat),
+      (∃ cells, carveFreeblocks sig ps [⟨pn, 0, fbStart, fbStart + 4, byteSize, data, po⟩] = .ok cells) ∨
+       carveFreeblocks sig ps [⟨pn, 0, fbStart, fbStart + 4, byteSize, data, po⟩] = .error .outsideModel) := by
+  refine ⟨completes_unallocated sig h ps pn po rs data hwf hsize, fun fbStart byteSize => ?_⟩
+  apply completes_freeblocks sig h ps
+  · intro fb hfb
+    rw [List.mem_singleton.1 hfb]
+    exact hwf
+  · intro fb hfb
+    rw [List.mem_singleton.1 hfb]
+    exact hsize
+
+/-- RECALL without a hypothesis about completion: carving the region either leaves the model's float
+range or returns cells among which is the intact record, at its place, with its stored values -/
+theorem recall_region_total (sig : CarveSig) (fc : List Int) (simplified : List (List Int)) (pf pp : Regex.Pat)
+    (hc : chosenSignature sig = .ok (fc, simplified)) (hpf : Regex.genSignature simplified false = .ok pf)
+    (hpp : Regex.genSignature simplified true = .ok pp) (hnc : sig.numberOfColumns = simplified.length)
+    (ps pn po rs : Nat) (data : Buf) (cols : List Spec.Col) (s e : Nat)
+    (hv : ∀ c ∈ cols, Spec.ValidCol c) (hne : cols ≠ []) (hn : cols.length = sig.numberOfColumns)
+    (hwf : data.WF) (hsize : data.size < 2 ^ 53) (hin : IntactAt data s e cols)
+    (hm : (s, e) ∈ Regex.finditer pf data.toList) :
+    carveUnallocated sig ps pn po rs data = .error .outsideModel ∨
+    ∃ cells, carveUnallocated sig ps pn po rs data = .ok cells ∧
+      ∃ c ∈ cells, c.matchStart = s ∧ c.matchEnd = e ∧ c.fileOffset = po + rs + s ∧
+        c.rec_.cols = expectedCCols 0 e cols := by
+  rcases completes_unallocated sig ⟨fc, simplified, pf, pp, hc, hpf, hpp, hnc⟩ ps pn po rs data hwf hsize with
+    ⟨cells, h⟩ | h
+  · exact Or.inr ⟨cells, h, recall_region sig fc simplified pf hc hpf ps pn po rs data cols s e hv hne hn hwf
+      hsize hin hm cells h⟩
+  · exact Or.inl h
 
 end SqliteDissect.Proofs.CarveCompletes
